@@ -176,7 +176,20 @@ def monitorProbed (script : List Cmd) (iters : List Iter) (d : Nat) (answersOnly
       -- (since the repair of D37 an SRV whose target changed after a response was read carries the
       -- NEW host name: what is left is that it is sent - the service is still Announced - while
       -- the re-targeted record is being probed again: D45)
-      if staleSrv then some s!"re-targeted-SRV-answered-while-it-is-probed-again {what}"
+      -- the name was taken from us by a conflict (NameChange event old -> new before this packet)
+      -- and no registration asked for it again since
+      let lostAt := (iters.zipIdx.filterMap fun ((it, k) : Iter × Nat) =>
+        if it.d != d || k ≥ p.k then none else
+        if it.evs.any fun ((_, toks) : Nat × List String) =>
+          match toks with
+          | ["namechange", o, _, _, _] => (bytesOfHex o).map lower == some (lower r.name)
+          | _ => false
+        then some k else none).getLast?
+      let lostName := match lostAt with
+        | some k => !(owners.any fun o => o.1 > k)
+        | none => false
+      if lostName then some s!"answers-under-the-name-it-lost-in-a-conflict {what}"
+      else if staleSrv then some s!"re-targeted-SRV-answered-while-it-is-probed-again {what}"
       else if renamedName && probedBy asked p.t then some s!"record-missing-from-first-probe-after-rename {what}"
       else if sameInst then some s!"answered-while-address-still-probing {what}"
       else if timeJump then some s!"announced-with-fewer-than-three-probes-late-iteration {what}"
@@ -398,6 +411,54 @@ def monitorAddressAnswers (script : List Cmd) (iters : List Iter) (d : Nat) : Op
           lower r.name == lower h.name && r.ty == h.ty && r.rdata == h.rdata && r.ttl > 0
         if listed || answered then none
         else some s!"address-question-not-answered host={hexOfBytes q.name} qtype={q.ty} t={x.t}"
+
+/-- `ok_C10` / `ok_C06`, completeness for questions on the instance and the service type: in a
+    calm history a PTR, SRV or TXT record that the daemon has announced on an interface is
+    answered for - every question on its owner name of its type (or ANY) gets the record, unless
+    the query lists THAT record as a known answer with more than half its TTL.  A known answer for
+    one record silences nothing else ("all other matching records are still answered"). -/
+def monitorInstanceAnswers (script : List Cmd) (iters : List Iter) (d : Nat) : Option String :=
+  if !plainNames script then none else
+  let calm := !(script.any fun c => match c with
+      | .unregister .. | .shutdown .. | .ifaces .. | .now _ => true
+      | .other ("enable" :: _) | .other ("disable" :: _) => true
+      | _ => false) &&
+    !(iters.any fun it => it.d == d && it.evs.any fun e => e.2.headD "" == "namechange")
+  if !calm then none else
+  let pk := sentBy iters d
+  let rxs := readBy iters d
+  if rxs.any (·.resp) then none else
+  let calls := processedCalls script iters cmdDaemonR
+  let regs := registers calls d
+  if regs.any (fun a => regs.any fun b => a.1 != b.1 && a.2.1 == b.2.1) then none else
+  rxs.findSome? fun x =>
+    let alone := (rxs.filter fun y => y.k == x.k).length == 1
+    let quietIter := (iters.toArray[x.k]?.map fun it => it.calls.isEmpty &&
+      !(it.evs.any fun e => e.2.headD "" == "announce")).getD false
+    if !alone || !quietIter then none else
+    let held := (pk.filter fun p => p.k < x.k && p.resp && p.dest == "m" && p.ifi == x.ifi && p.v4 == x.v4 &&
+        (iters.toArray[p.k]?.map fun it => it.rx.isEmpty).getD false).flatMap fun p =>
+      p.m.answers.filter fun r => (r.ty == 12 || r.ty == 33 || r.ty == 16) && r.ttl > 0
+    let out := pk.filter fun p => p.k == x.k && p.resp
+    x.m.questions.findSome? fun q =>
+      held.findSome? fun h =>
+        -- (the statement asks for case-insensitive matching of instance and host names; the crate
+        -- compares service TYPE names as spelled - `matches_type_or_subtype` - so PTR questions are
+        -- judged in the registered spelling only; an ANY question on a type name is not a PTR question)
+        let nameMatch := if h.ty == 12 then h.name == q.name && q.ty == 12 else lower h.name == lower q.name && (q.ty == h.ty || q.ty == 255)
+        if !nameMatch then none else
+        let listed := x.m.answers.any fun ka =>
+          lower ka.name == lower h.name && ka.ty == h.ty && ka.rdata == h.rdata && decide (2 * ka.ttl > h.ttl)
+        let answered := out.any fun p => (p.m.answers ++ p.m.additionals).any fun r =>
+          lower r.name == lower h.name && r.ty == h.ty && r.rdata == h.rdata && r.ttl > 0
+        -- known finding D46: a subtype PTR question is answered through the TYPE's PTR record (answer
+        -- section; the subtype PTR rides along as an additional), so a known answer for the type's
+        -- PTR silences the subtype PTR too although that record is not listed
+        let viaTypePtr := h.ty == 12 && x.m.answers.any fun ka =>
+          ka.ty == 12 && ka.rdata == h.rdata && ka.name != h.name && (ka.name).isSuffixOf h.name && decide (2 * ka.ttl > h.ttl)
+        if listed || answered then none
+        else if viaTypePtr then some s!"subtype-PTR-silenced-by-a-known-answer-for-the-type-PTR rec={hexOfBytes h.name}/{h.ty} t={x.t}"
+        else some s!"record-not-answered-although-not-listed-as-known rec={hexOfBytes h.name}/{h.ty} qtype={q.ty} t={x.t}"
 
 /-! ### C06 -/
 
